@@ -32,17 +32,22 @@ class InjectedFault(Exception):
     pass
 
 
+FAULT_TYPES = [InjectedFault, AttributeError, KeyError, ZeroDivisionError, NotImplementedError, TypeError, LookupError]
+# (not StopIteration: PEP 479 turns it into RuntimeError inside any generator, dagrt's or not)
+
+
 class FaultPlan:
-    def __init__(self, site, index):
+    def __init__(self, site, index, exc_type=InjectedFault):
         self.site, self.index = site, index
         self.counts = {}
         self.exc = None
+        self.exc_type = exc_type
 
     def __call__(self, name):
         n = self.counts.get(name, 0)
         self.counts[name] = n + 1
         if name == self.site and n == self.index and self.exc is None:
-            self.exc = InjectedFault("%s#%d" % (name, n))
+            self.exc = self.exc_type("%s#%d" % (name, n))
             raise self.exc
 
 
@@ -173,7 +178,10 @@ def check_case(case, collect=None):
                     allowed.setdefault(n, []).append(v)
         for backend in ("interpreter", "generated"):
             info["faults"] += 1
-            fp = FaultPlan(site, j)
+            # the exception class varies with the fault point (deterministically)
+            exc_type = FAULT_TYPES[(len(site) + 3 * j + si + (1 if backend == "generated" else 0)) % len(FAULT_TYPES)] \
+                if case.get("vary_exception_type", True) else InjectedFault
+            fp = FaultPlan(site, j, exc_type)
             fm = make_python_functions(fault=fp, sites=sites)
             try:
                 if backend == "interpreter":
@@ -203,9 +211,9 @@ def check_case(case, collect=None):
                             for evt in stepper.run_single_step():
                                 pass
                             done += 1
-                        except InjectedFault:
-                            raise
                         except Exception as e2:
+                            if e2 is fp.exc:
+                                raise
                             nm2 = type(e2).__name__
                             if nm2 == "FailStepException":
                                 continue
@@ -220,11 +228,13 @@ def check_case(case, collect=None):
                         n += 1
                         if n > 80:
                             break
-            except InjectedFault as e:
-                caught = e
             except Exception as e:
-                problems.append("%s: fault %s#%d surfaced as %s: %s" % (backend, site, j, type(e).__name__, str(e)[:80]))
-                continue
+                if e is fp.exc:
+                    caught = e
+                else:
+                    problems.append("%s: fault %s#%d (%s) surfaced as %s: %s" % (
+                        backend, site, j, exc_type.__name__, type(e).__name__, str(e)[:80]))
+                    continue
             where = "%s, fault at invocation %d of %s (step %d, statement %s)" % (backend, j, site, si, sid)
             if caught is None:
                 problems.append("%s: the injected exception never reached the caller" % where)
